@@ -249,23 +249,23 @@ class ParseMCNPCell:
                     by_particle[particle] = importance
                 keywords['imp_by_particle'] = by_particle
                 keywords['importance'] = max(by_particle.values())
-            elif 'fill' in elt:
+            elif elt in ('fill', '*fill'):
                 f_bounds, f_univs, f_params = self.parse_fill_kw(elt, kw_list)
                 keywords['f_bounds'] = f_bounds
                 keywords['f_univs'] = f_univs
                 keywords['f_params'] = f_params
-            elif 'lat' in elt:
+            elif elt == 'lat':
                 keywords['lattice'] = self.parse_lat_kw(kw_list)
-            elif 'trcl' in elt:
+            elif elt in ('trcl', '*trcl'):
                 keywords['trcl'] = self.parse_trcl_kw(elt, kw_list)
-            elif 'u' in elt:
+            elif elt == 'u':
                 # a negative universe number (U=-n) is MCNP's hint that the
                 # cell is not truncated by its container: it is universe n
                 keywords['u'] = abs(int(float(kw_list.pop())))
-            elif 'rho' in elt:
+            elif elt == 'rho':
                 # only relevant for LIKE n BUT cells
                 keywords['density'] = kw_list.pop()
-            elif 'mat' in elt:
+            elif elt == 'mat':
                 # only relevant for LIKE n BUT cells
                 keywords['material'] = kw_list.pop()
         return keywords
